@@ -278,10 +278,15 @@ impl Request {
         if let Some(content_length) = headers.get(&HeaderType::ContentLength) {
             let content_length: usize =
                 content_length.parse().map_err(|_| RequestError::Request)?;
-            let mut content_buf: Vec<u8> = vec![0u8; content_length];
+            // Read at most the announced number of bytes, growing the buffer as they arrive, so that the
+            //   memory used is bounded by what the client actually sends rather than by what it claims
+            let mut content_buf: Vec<u8> = Vec::new();
             reader
-                .read_exact(&mut content_buf)
+                .by_ref()
+                .take(content_length as u64)
+                .read_to_end(&mut content_buf)
                 .map_err(|_| RequestError::Stream)?;
+            safe_assert(content_buf.len() == content_length).map_err(|_| RequestError::Stream)?;
 
             Ok(Self {
                 method,
@@ -379,11 +384,15 @@ impl Request {
         if let Some(content_length) = headers.get(&HeaderType::ContentLength) {
             let content_length: usize =
                 content_length.parse().map_err(|_| RequestError::Request)?;
-            let mut content_buf: Vec<u8> = vec![0u8; content_length];
-            reader
-                .read_exact(&mut content_buf)
+            // Read at most the announced number of bytes, growing the buffer as they arrive, so that the
+            //   memory used is bounded by what the client actually sends rather than by what it claims
+            let mut content_buf: Vec<u8> = Vec::new();
+            (&mut *reader)
+                .take(content_length as u64)
+                .read_to_end(&mut content_buf)
                 .await
                 .map_err(|_| RequestError::Stream)?;
+            safe_assert(content_buf.len() == content_length).map_err(|_| RequestError::Stream)?;
 
             Ok(Self {
                 method,
